@@ -196,6 +196,16 @@ def families():
             yield tuple((kinds[i], ((i + 1, i + 1) if i < n - 1 else ()), 7 if i == n - 1 else None) for i in range(n))
 
 
+def deep_families():
+    """Chains of 25 / 60 nested containers whose last node points back to the root / the middle / itself,
+    and one that only shares (no cycle)."""
+    for n in (25, 60):
+        for kinds in (('list',) * n, ('dict',) * n, tuple(('list', 'dict')[i % 2] for i in range(n))):
+            for back in (0, n // 2, n - 1, None):
+                yield tuple((kinds[i], ((i + 1,) if i < n - 1 else (() if back is None else (back,))), 7 if i == n - 1 else None)
+                            for i in range(n))
+
+
 def pf(v, **kw):
     try:
         with core.deadline(WATCHDOG_S):
@@ -323,6 +333,10 @@ def work(item):
                 break
             check_graph(spec, part)
             part.c['graphs'] += 1
+    elif kind == 'deep':
+        for spec in deep_families():
+            check_graph(spec, part, widths=(10 ** 6, 79))
+            part.c['family_graphs'] += 1
     elif kind == 'families':
         for spec in families():
             check_graph(spec, part, widths=(10 ** 6, 30, 1))
@@ -370,6 +384,8 @@ def run(tier, seed):
         items += [('graphs', 4, 1, lo, hi) for lo, hi in core.chunks(total, 128)]
         desc.append('all rooted graphs with 4 nodes, out-degree <= 1: %d' % total)
     items.append(('families',))
+    items.append(('deep',))
+    desc.append('chains of 25 and 60 nested lists / dicts with a back-reference to the root, the middle, themselves, or none: %d graphs' % sum(1 for _ in deep_families()))
     desc.append('ring / lollipop / diamond families with 2..8 nodes: %d graphs' % sum(1 for _ in families()))
     for n in (1, 2):
         total = sum(1 for _ in graphs(n, 2))
